@@ -78,15 +78,16 @@ type verifLookupd struct {
 }
 
 type verifWorld struct {
-	lds    []*verifLookupd
-	budget int    // faults still available
-	hits   int    // faults that have struck
-	opN    int    // I/O calls so far (symbolic run)
-	ioPlan []bool // native: which I/O calls fail
-	opBase int    // native: I/O calls before the current clock plan
-	step   int
-	dials  []string
-	mu     sync.Mutex // native only
+	lds      []*verifLookupd
+	budget   int    // faults still available
+	hits     int    // faults that have struck
+	opN      int    // I/O calls so far (symbolic run)
+	ioPlan   []bool // native: which I/O calls fail
+	opBase   int    // native: I/O calls before the current clock plan
+	step     int
+	dials    []string
+	mu       sync.Mutex // native only
+	activity int        // native only: bumps on every accept / read / close at a lookupd
 }
 
 var verifW *verifWorld
@@ -197,8 +198,21 @@ func (w *verifWorld) nativeClockPlan() {
 
 // nativeSettle: give the loopback lookupd's goroutines time to see what nsqd sent (native only).
 func (w *verifWorld) nativeSettle() {
-	if !verifrt.Symbolic() {
-		time.Sleep(120 * time.Millisecond)
+	if verifrt.Symbolic() {
+		return
+	}
+	// wait until the lookupds have seen no traffic for 150 ms (at least 150 ms, at most 5 s)
+	quiet, last := 0, -1
+	for i := 0; i < 170 && quiet < 5; i++ {
+		time.Sleep(30 * time.Millisecond)
+		w.mu.Lock()
+		a := w.activity
+		w.mu.Unlock()
+		if a == last {
+			quiet++
+		} else {
+			quiet, last = 0, a
+		}
 	}
 }
 
@@ -279,6 +293,7 @@ func (ld *verifLookupd) listen() {
 			ld.w.mu.Lock()
 			s := ld.newSession()
 			s.conn = c
+			ld.w.activity++
 			ld.w.mu.Unlock()
 			go s.serve()
 		}
@@ -292,11 +307,13 @@ func (s *verifLSession) serve() {
 		if n > 0 {
 			s.ld.w.mu.Lock()
 			s.feed(buf[:n])
+			s.ld.w.activity++
 			s.ld.w.mu.Unlock()
 		}
 		if err != nil {
 			s.ld.w.mu.Lock()
 			s.closed = true
+			s.ld.w.activity++
 			s.ld.w.mu.Unlock()
 			s.conn.Close()
 			return
